@@ -302,7 +302,7 @@ class MachZehnder(_PassiveLinearGate):
     The symplectic representation of the Mach-Zehnder interferometer is
 
     .. math::
-        S_{(c)} = \begin{bmatrix}
+        S_{(c)} = \frac{1}{2} \begin{bmatrix}
         e^{i \phi_{ext} } (e^{i \phi_{int} } - 1)   & i (e^{i \phi_{int} } + 1) & & \\
         i e^{i \phi_{ext} } (e^{i \phi_{int} } + 1) & 1 - e^{i \phi_{int} }     & & \\
         & & e^{-i \phi_{ext} } (e^{-i \phi_{int} } - 1) & -i (e^{-i \phi_{int} } + 1) \\
